@@ -521,6 +521,14 @@ FILLER_CLOSED = [
     "",
     "",
 ]
+FILLER_LOCAL_RE = [
+    "def _tv_patterns(_tv_src):",
+    "    import re as _tv_re",
+    "    re = _tv_re.compile(_tv_src)",
+    "    return re",
+    "",
+    "",
+]
 FILLER_OPEN = [
     "import os as _tv_os",
     "",
@@ -584,6 +592,12 @@ VERBOSE_HDRS = ["if verbose:", "if verbose:", "if self.verbose:", "if opts['debu
                 "if cfg.fetch('verbose'):", "if get('verbose'):", "if self.Verbose:", "if opts['DEBUG']:", 'if ctx.get("Is_Debug"):', "if opts[0]:", "if Is_Verbose:", "while verbose:", "if verbosity:"]
 
 
+REGEX_STMTS = ["re.match('a', x)", "m = re.search(p, x)", "pat.match(x)", "rx.sub('a', 'b', x)", "match(x)", "y = find('a', x)", "re.compile('a').match(x)",
+               "y = re.findall(p, x)", "re.escape(x)", "fmt(re.split(',', x))", "x.re.match(y)", "rx.fullmatch(p, x)", "y = [re.subn(p, '', z) for z in x]",
+               "import re", "import re as rx", "import os, re as rx", "from re import match", "from re import search as find, escape", "from rex import match",
+               "pat = re.compile('a')", "pat: object = rx.compile('b')", "rx = rx.compile('b')", "re = rx.compile(p)", "pat = rex.compile('a')", "pat = compile('a')"]
+
+
 def gen_fragment(r) -> str:
     """a small module: functions with loops, augmented assignments, prints, main blocks"""
     out = []
@@ -622,7 +636,9 @@ def _gen_block(r, depth) -> list[str]:
         return [f"print({v})"]
     if k < 0.38:
         return [r.choice(LOG_CALLS)]
-    if k < 0.46 or depth >= 3:
+    if k < 0.45:
+        return [r.choice(REGEX_STMTS)]
+    if k < 0.52 or depth >= 3:
         return [f"{v} {r.choice(['+=', '+=', '+=', '-=', '*='])} {r.choice(VALS_STR + VALS_OTHER)}"]
     hdr = r.choice(["for x in xs:", "for x in xs:", "while y:", "if y:", "try:", "with y as x:", "async_for"] + [r.choice(VERBOSE_HDRS)] * 3)
     if hdr == "async_for":
